@@ -129,7 +129,8 @@ def make_case(index, rng, tier):
         rng.choice(clients)["paths"][0] = "/sleep/3.0"
     return {"family": fam, "kind": kind, "short_timeout": short_timeout, "wconn": rng.choice([2, 3, 20]) if kind in ("gevent", "eventlet") else 20, "max_requests": mr, "jitter": rng.choice([0, 0, 1, 2]), "clients": clients,
             "threads": rng.randrange(1, 4), "keepalive": rng.choice([0, 2, 2]), "workers": rng.randrange(1, 3), "binds": rng.choice([1, 1, 2]),
-            "buggify": {"pyticks": rng.randrange(3) == 0, "short_recv": rng.randrange(4) == 0, "fork_child_first": rng.randrange(2) == 0}, "preempt": rng.randrange(0, 4)}
+            "buggify": {"pyticks": rng.randrange(3) == 0, "short_recv": rng.randrange(4) == 0, "fork_child_first": rng.randrange(2) == 0,
+                        "accept_econnaborted": fam == "worker" and rng.randrange(5) == 0}, "preempt": rng.randrange(0, 4)}
 
 
 def client_script(c):
